@@ -137,7 +137,10 @@ pub fn candidates(plan: &Plan) -> Vec<Plan> {
     }
     // body
     out.extend(crate::fam_shrink::body_candidates(plan));
-    // programs
+    // programs (not for pipelines: their oracle's model is tied to the stage programs)
+    if matches!(plan.body, Body::Pipe(_)) {
+        return out;
+    }
     for (pi, prog) in plan.programs.iter().enumerate() {
         for alt in shrink_ops(prog) {
             let mut p = plan.clone();
